@@ -37,6 +37,41 @@ for i in range(1, 21):
                 for t in ctx.resolve_call(k):
                     if t.func.module.relpath in files and t.func.qualname not in fns:
                         fns[t.func.qualname] = t.func
+    # overrides of scope methods in subclasses, and thin wrappers: functions of the anchor files that hand at least one of
+    # their own parameters on, under its own name, to a function of the scope (the convenience entry points of the same
+    # family: rescale_to_diagonal -> rescale, MaskedImage.sample -> Image.sample, ...).  They are in scope for the generic
+    # rules only (no property-specific rule looks at them).
+    core = dict(fns)
+    for f in list(core.values()):
+        if f.cls is None:
+            continue
+        for c in project.classes.values():
+            if f.cls in c.mro[1:] and f.name in c.methods and c.methods[f.name].module.relpath in files:
+                fns.setdefault(c.methods[f.name].qualname, c.methods[f.name])
+    # sibling implementations (the same method name in another class of the anchor files) and every function the property's
+    # anchors name in their `where` fields
+    import re as _re
+    named = set()
+    for grp in ("state", "mechanism"):
+        for ent in PROPS[pid]["anchors"].get(grp) or []:
+            named |= set(_re.findall(r"[A-Za-z_][A-Za-z0-9_]*(?:\.[A-Za-z_][A-Za-z0-9_]*)?", ent.get("where", "")))
+    method_names = {f.name for f in core.values() if f.cls is not None and not (f.name.startswith("__") and f.name != "__init__")} - {"__init__"}
+    for w in project.all_functions():
+        if w.module.relpath not in files or w.qualname in fns:
+            continue
+        if (w.cls is not None and w.name in method_names) or w.short in named or (w.name in named and not w.name.startswith("__")):
+            fns[w.qualname] = w
+    core = dict(fns)
+    for _level, w in [(l, w) for l in range(2) for w in project.all_functions()]:
+        if _level == 1:
+            core = dict(fns)
+        if w.module.relpath not in files or w.qualname in fns or not w.params:
+            continue
+        shorts = {f.short for f in core.values()}
+        now, _called = check.forwarded_options(project, w)
+        hit = any(callee in shorts for callee, _prm in now)
+        if hit:
+            fns[w.qualname] = w
     index = {f.qualname: f for f in project.all_functions()}
     for q in getattr(mod, "EXTRA_SCOPE", []):
         if q not in index:
@@ -62,5 +97,21 @@ for pid, per in out.items():
             t[q] = sorted([list(x) for x in now])
     fwd[pid] = t
 out["#forward"] = fwd
+al = {"#functions": sorted(index)}
+for pid in [k for k in out if not k.startswith("#")]:
+    for q in out[pid]:
+        f = index.get(q)
+        if f is not None and q not in al:
+            i_, n_, c_, _e = check.aliasing_profile(project, f)
+            al[q] = [len(i_), len(n_), len(c_)]
+out["#alias"] = al
+ctl = {}
+for pid in [k for k in out if not k.startswith("#")]:
+    for q in out[pid]:
+        f = index.get(q)
+        if f is not None and q not in ctl:
+            must, pol, _present = check.control_profile(f)
+            ctl[q] = {"must": sorted(must), "pol": {"%s|%s" % k: v for k, v in sorted(pol.items())}}
+out["#control"] = ctl
 out["#state"] = {c.qualname: sorted(check.class_state(c)) for c in project.classes.values()}
 json.dump(out, open(os.path.join(os.path.dirname(os.path.dirname(os.path.abspath(__file__))), "menpolint", "scope.json"), "w"), indent=1, sort_keys=True)
